@@ -44,13 +44,18 @@ class Intrinsics:
         if isinstance(v, seqs.KINDS):
             return seqs.isinstance_hook(P, v, t)
         if isinstance(t, tuple):
-            return any(self.isinstance(P, v, x) for x in t)
+            rs = [self.isinstance(P, v, x) for x in t]
+            if any(r is True for r in rs):
+                return True
+            sym = [r for r in rs if r is not False]   # absnodes: symbolic class tests
+            return simp(z3.Or([as_z3bool(r) for r in sym])) if sym else False
         if t is None:
             return v is None
         if isinstance(t, ClassV):
             ci = t.info
-            if isinstance(v, containers.SymKey):   # containers
-                return containers.key_isinstance(P, v, ci)
+            if isinstance(v, containers.SymKey):   # containers / absnodes: the key's class may be symbolic
+                from . import absnodes
+                return absnodes.key_isinstance(P, v, ci)
             if isinstance(v, SObj):
                 return P.index.is_subclass(v.cls, ci)
             if isinstance(v, (EnumV, FlagV)):
@@ -175,6 +180,9 @@ class Intrinsics:
             return P.call_method(v, '__len__', [], {})
         if isinstance(v, seqs.KINDS):
             return seqs.seq_len(P, v)
+        if isinstance(v, containers.SymSet):   # absnodes
+            from . import absnodes
+            return absnodes.set_len(P, v)
         raise Unsupported(f'len of {v!r}')
 
     def _minmax(self, P, args, kwargs, is_min):
@@ -358,6 +366,9 @@ class Intrinsics:
         return simp(z3.And(rs)) if rs else True
 
     def b_any(self, P, it):
+        if type(it).__name__ == 'SymSetImage':   # absnodes
+            from . import absnodes
+            return absnodes.any_image(P, it)
         rs = [P.truthy(x) for x in P.iterate(it)]
         if any(r is True for r in rs):
             return True
@@ -441,6 +452,9 @@ class Intrinsics:
                 return self.x_fractions_Fraction(P, n, d)
             if is_fraclike(num):
                 return num
+            if isinstance(num, SymFloat):   # absnodes (C07): exact value of a binary64
+                from . import absnodes
+                return absnodes.fraction_of_float(P, num)
             if isinstance(num, (str, float)):
                 try:
                     return Fraction(num)
@@ -896,6 +910,23 @@ class Intrinsics:
 
     def s_seq_len(self, P, seq):
         return containers.seq_len(P, seq)
+
+    # absnodes (C07): total accessors over abstract keys / set-valued maps
+    def s_key_attr(self, P, k, attr):
+        from . import absnodes
+        return absnodes.key_attr(P, k, attr)
+
+    def s_key_isa(self, P, k, cname):
+        from . import absnodes
+        return absnodes.key_isa(P, k, cname)
+
+    def s_set_map_has(self, P, m, k, u):
+        from . import absnodes
+        return absnodes.set_map_has(P, m, k, u)
+
+    def s_map_val(self, P, m, k):
+        from . import absnodes
+        return absnodes.map_val(P, m, k)
     def s_apply_lemma(self, P, name, **kw):
         """
         lemma application (as in Dafny): the lemma's precondition becomes an obligation `pre@<Lemma>[..]` of the
